@@ -214,6 +214,26 @@ def run_case(c, ns):
                             "outcome": run_case({"cls": c["cls"], "op": "roundtrip", "raw": r.hex(), "offset": off,
                                                  "record": c.get("record")}, ns)})
             return {"packed": {"ok": raw.hex()}, "derived": out}
+        if op == "regexp":
+            from bisturi.pattern_matching import Any, filter as pfilter
+            p = cls()
+            for n, v in c["pattern"]:
+                setattr(p, n, Any() if (isinstance(v, dict) and v.get("any")) else build(v, ns))
+            out = {}
+            try:
+                out["pattern"] = p.as_regular_expression().pattern.hex()
+            except Exception as e:
+                out["pattern_exc"] = "%s: %s" % (type(e).__name__, str(e)[:100])
+            corpus = [bytes.fromhex(x) for x in c["corpus"]]
+            try:
+                out["without"] = [i for i, r in enumerate(corpus) if list(pfilter(p, [r], filter_with_regexp_first=False))]
+            except Exception as e:
+                out["without_exc"] = type(e).__name__
+            try:
+                out["with"] = [i for i, r in enumerate(corpus) if list(pfilter(p, [r]))]
+            except Exception as e:
+                out["with_exc"] = "%s: %s" % (type(e).__name__, str(e)[:100])
+            return {"ok": out}
         if op == "repack":
             p = cls.unpack(bytes.fromhex(c["raw"]), c.get("offset", 0))
             for n, v in c["set"]:
